@@ -133,7 +133,8 @@ claim("C07", "fault_enumeration",
 claim("C09", "exploration",
       "generated models (accepted and rejected) re-rendered with redundant parentheses, layout noise, comments, alias "
       "spellings and with all identifiers consistently renamed; messages, supported methods and the canonical "
-      "document compared after mapping names back; token-level alias swap over boolean expressions compared by typed tree",
+      "document compared after mapping names back; token-level alias swap over boolean expressions compared by typed tree; "
+      "one inner-scope entity named like an outer typedef / global / function versus named freshly",
       "rewrites are produced from the abstract model, so they are meaning preserving by construction",
       "runtime monitoring: metamorphic comparison of recorded results of original and rewritten inputs")
 claim("C15", "exploration",
